@@ -2,7 +2,7 @@
 import json, os, random
 from . import common, gen, oracles
 from .gen import wchoice
-from . import fals_basic
+from . import fals_basic, fals_models
 
 PROPS = {}
 
@@ -26,6 +26,61 @@ register(
     streams=["supply"],
     falsifier=fals_basic.falsify_C09,
     explanation="sbf(0)=0, monotone, 1-Lipschitz, Galois connection between provided_service and service_time (closed forms and default loop), reductions constrained(D=P)=periodic and periodic(Q=P)=dedicated proved for all parameters; exactness against budget placements: attainment proved by an explicit adversarial process, soundness for all compliant processes.",
+)
+
+
+register(
+    "C10",
+    level="proof",
+    streams=["arrival"],
+    falsifier=fals_models.falsify_C10,
+    explanation="N(0)=0, monotonicity, never-undercounts against every admissible event sequence (structural induction over all arrival models and compositions), attainment and sub-additivity of periodic/sporadic, jitter composition: all proved in Lean for the model; model tied to number_arrivals / clone_with_jitter by the arrival stream; falsifier runs dense admissible histories against the real number_arrivals.",
+)
+
+register(
+    "C11",
+    level="proof",
+    streams=["steps", "arrival"],
+    falsifier=fals_models.falsify_C11,
+    partial=["steps_exact_partial carries the hypothesis Arr.Exact / RB.Exact, which excludes exactly the shapes of the known findings F2 (Propagated over nothing), F3 (delta-min vector ending in a plateau) and K1 (ArrivalCurvePrefix yields 0); the full statement StepsExactForAll is proved FALSE (counterexample_F2/F3/K1)"],
+    explanation="steps_iter (cut at every horizon) = exactly the increase points, strictly increasing, >= 1: proved for every arrival model and request bound outside three defect shapes whose negation is proved with concrete witnesses and replayed on the real code (known findings).",
+)
+
+register(
+    "C12",
+    level="proof",
+    streams=["derive", "arrival", "steps"],
+    falsifier=fals_models.falsify_C12,
+    partial=["from_arrival_bound_dominates_partial / prefix_from_arrival_bound_partial need a sub-additive source (the claim is FALSE otherwise: counterexample_F8, known finding F8) and an arrival model outside the C11 findings; the doubling search for a covering horizon in the model must succeed (hypothesis hreach, decidable)",
+             "from_trace_bounds_all_windows needs a usable curve (some recorded span positive); an all-zero prefix makes number_arrivals divide by zero"],
+    explanation="trace-inferred curve = minimum spans (loop invariant over the trace), hence respects the trace and bounds every window of every length; delta_min_iter is the exact dual of number_arrivals; curves and prefixes derived from sub-additive bounds dominate the source everywhere and coincide on the covered prefix.",
+)
+
+register(
+    "C13",
+    level="proof",
+    streams=["xcurve", "arrival", "derive"],
+    falsifier=fals_models.falsify_C13,
+    partial=["only_tightens_partial: tightening is proved for window lengths below the extrapolated horizon; beyond it the claim is FALSE for partially extrapolated Curves (counterexample_F6, known finding F6); it is proved for every length for ExtrapolatingCurve",
+             "the run-time RefCell borrow flag is exercised by the xcurve stream, not proved"],
+    explanation="append-only, conservative (respects_iterExt + curve_bounds), tightening within the horizon, termination, pure semantics of ExtrapolatingCurve (monotone, <= plain curve, still a bound), cache state machine transparent for all query histories.",
+)
+
+register(
+    "C14",
+    level="proof",
+    streams=["wcet", "xcost"],
+    falsifier=fals_models.falsify_C14,
+    partial=["extrapolation_never_raises_partial: proved inside the extrapolated range; beyond it FALSE for partially extrapolated wcet::Curves (counterexample_F7, known finding F7); proved for every n for ExtrapolatingCurve"],
+    explanation="cost(0)=0, monotone, items sum to cost, least_wcet <= items for scalar/multiframe/curve/extrapolating models (curves: non-decreasing sub-additive prefix); trace-inferred curve bounds every run; extrapolation appends, stays well-formed, never raises inside its range; cache transparent for all histories.",
+)
+
+register(
+    "C16",
+    level="proof",
+    streams=["demand"],
+    falsifier=fals_models.falsify_C16,
+    explanation="all clauses proved by structural induction over nested request bounds (RBF, Aggregate/Slice); sum of n largest via a verified insertion sort and a sublist-maximality lemma.",
 )
 
 
